@@ -73,7 +73,7 @@ def quoted (bs : List UInt8) : List UInt8 := 34 :: bs ++ [34]
   utext <prev16> <text>                → ok|err <destination afterwards>   (UnmarshalText on a destination holding prev)
   ujson <prev16> <data>                → ok|err <destination afterwards>   (UnmarshalJSON called directly)
   jsonu <kind> <prev16> <doc> <lit>    → json.Unmarshal of doc into a destination holding prev; lit = the literal
-                                         encoding/json hands to UnmarshalJSON (hex) | invalid | nocall
+                                         encoding/json hands to UnmarshalJSON (hex,hex…) | invalid | nocall | realloc
   ucql <col> <kind> <prev> <data|null> → ok|err <destination afterwards>   (gocql.Unmarshal, uuid/timeuuid column)
   useq <prev16> <step>...              → ok:<dst>|err:<dst> per step, all on ONE destination
   rtdirty <prev16> <u16>               → u (every printer → every decoder, destination holding prev)
@@ -152,6 +152,7 @@ def step (_ : Unit) (ws : List String) : Unit × String :=
       | some p => if p.length ≠ 16 then "bad-op"
         else if lit == "invalid" then "err " ++ toHex p
         else if lit == "nocall" then "nocall " ++ toHex p
+        else if lit == "realloc" then "reallocated"
         else match parseLits lit with
           | some ls => stat (Uuid.jsonCalls p ls)
           | none => "bad-op"
